@@ -16,6 +16,9 @@ from .engine import (Bound, BreakSignal, ContinueSignal, Env, ExcVal, Infeasible
 PROCEED = object()
 
 
+HOOKED_SIGNATURES = {}       # spec -> parameter names of every function whose call was answered by a contract hook (per process, reset per task)
+
+
 class SymConst(object):
     """Symbolic `Constant.value`: a python constant of unknown type and value.
 
@@ -710,6 +713,14 @@ class Interp(object):
         if h is not None:
             r = h(self, f, args, kwargs)
             if r is not PROCEED:
+                # the call was answered by the CONTRACT of the callee: remember the callee's parameter list, the runner compares it with the one the
+                # contract was written for (a new parameter is behaviour the contract knows nothing about)
+                try:
+                    a = f.node.args
+                    HOOKED_SIGNATURES[spec] = [x.arg for x in a.posonlyargs + a.args] + (['*' + a.vararg.arg] if a.vararg else []) + \
+                        [x.arg for x in a.kwonlyargs] + (['**' + a.kwarg.arg] if a.kwarg else [])
+                except Exception:
+                    pass
                 return r
         if len(self.frames) > self.max_depth:
             raise Undecided('call depth exceeded at %s' % spec)
